@@ -3,6 +3,7 @@
 # property's quick check against it. Prints one line per mutant. usage: tools/run_mutants.sh [PID...]
 cd /verif
 grep -v "^#" tools/mutants.tsv | while IFS=$'\t' read -r pid file pat rep comment; do
+  [ -z "$pid" ] && continue
   [ "$comment" = "SKIP" ] && continue
   if [ $# -gt 0 ] && ! echo " $* " | grep -q " $pid "; then continue; fi
   out=$(tools/teeth.sh $pid quick "$file" "$pat" "$rep" 2>&1)
